@@ -3856,10 +3856,10 @@ func (p *Parser) parseAlterChangeStream(pos token.Pos) *ast.AlterChangeStream {
 			All:  allpos,
 		}
 		return cs
-	} else {
-		p.panicfAtToken(&p.Token, "expected SET FOR or DROP FOR ALL or SET OPTIONS")
 	}
-	return cs
+
+	// Neither SET FOR, SET OPTIONS nor DROP FOR ALL.
+	panic(p.errorfAtToken(&p.Token, "expected SET FOR or DROP FOR ALL or SET OPTIONS"))
 }
 
 func (p *Parser) parseDropChangeStream(pos token.Pos) *ast.DropChangeStream {
